@@ -618,7 +618,7 @@ class Unit:
         self.spans.append({"item": label, "file": relfile, "lines": [l1, l2], "sha256": sha})
         fname = icfg["wrap_fn"]
         self.report.add("W8", label, f"block of `{icfg['block_of']}!` wrapped as `{icfg['wrap_sig']}` with trailing `{icfg.get('wrap_tail', '')}`")
-        text = icfg["wrap_sig"] + " {" + raw + "\n" + icfg.get("wrap_tail", "") + "\n}"
+        text = icfg["wrap_sig"] + " {" + icfg.get("wrap_head", "") + raw + "\n" + icfg.get("wrap_tail", "") + "\n}"
         substs = list(self.cfg.get("subst", [])) + list(icfg.get("subst", []))
         itemname = fname
         text = erase_await(text, self.report, itemname)
